@@ -910,23 +910,50 @@ fn recover_shift(vertices: &mut Vec<Vertex>)
 //@ >>
 //@ end
 
-// opening (LsmTree::from_manifest): the tree rebuilt from the files the manifest lists is accepted only if the sum of its
-// files' setsums is the manifest's recorded output (the digest strings compared name the setsums)
+// opening (LsmTree::from_manifest), from listing the files to the comparison: the store opens only if the setsums recorded in
+// the files the manifest lists sum to the manifest's recorded output.  list_ssts_from_manifest is the function proved
+// above (the call sees its contract); Version::open (= tree::recover) through `the version's setsum is the sum of the records it was
+// given` -- proved for recover's placing step (recover_place above), ASSUMED for the function as a whole (its graph pass
+// decides levels only; the two sorts after the placing step permute each level); compute_setsum and the comparison are
+// the real text (the digest strings compared name the setsums); Mutex / RwLock / Arc are read through (X23, X18).
+#[verifier::external_body]
+struct LsmtkOptions { _p: u8 }
+impl LsmtkOptions {
+    #[verifier::external_body]
+    fn clone(&self) -> (r: LsmtkOptions) { unimplemented!() }
+}
+// what list_ssts_from_manifest returns for this manifest under this root (its postcondition, as a spec function)
+spec fn listed_records(root: Root, mani: Manifest, md: Seq<SstMetadata>) -> bool {
+    md.len() == mani.strs().len()
+        && forall|i: int| 0 <= i < mani.strs().len() ==> parse_hex(#[trigger] mani.strs()[i]) is Some
+            && md[i] == md_at(sst_path_of(root, parse_hex(mani.strs()[i])->Some_0))
+}
+#[verifier::external_body]
+fn version_open(options: LsmtkOptions, metadata: Vec<SstMetadata>) -> (r: Result<Version, SError>)
+    ensures r is Ok ==> tree_sum(r->Ok_0) == gsum(mds_g(metadata@)),
+{ unimplemented!() }
 //@ extract lsmtk/src/tree/mod.rs | impl LsmTree :: fn from_manifest
-//@ region `let version_setsum = version.compute_setsum();` .. `if `
+//@ region `let metadata = LsmTree::list_ssts_from_manifest(` .. `if `
 //@ region-sig <<
-fn open_check(version: &Version, mani: &Manifest) -> (r: Result<(), SError>)
+fn open_check(options: &LsmtkOptions, root: &Root, mani: &Manifest, file_manager: &FileManager) -> (r: Result<Version, SError>)
 //@ >>
 //@ region-tail <<
-    Ok(())
+    Ok(version)
 //@ >>
+//@ rewrite-re X23 `Self::list_ssts_from_manifest\(&root, &mani\.read\(\)\.unwrap\(\), &file_manager\)` => `LsmTree::list_ssts_from_manifest(root, mani, file_manager)`
+//@ rewrite-re X23 `let version = Mutex::new\(Arc::new\(Version::open\((.*?)\)\?\)\);` => `let version = version_open(\1)?;`
+//@ rewrite-re? X4 `\bvec!\[\]` => `Vec::new()`
+//@ rewrite-re? X23 `(?m)^\s*let compaction = Mutex::new\(\(\)\);\n` => ``
 //@ rewrite-re X23 `version\.lock\(\)\.unwrap\(\)\.compute_setsum\(\)\.hexdigest\(\)` => `version.compute_setsum()`
 //@ rewrite-re X7 `(?s)mani\s*\.read\(\)\s*\.unwrap\(\)\s*\.info\('(\w)'\)\s*\.map\(\|s\| s\.to_string\(\)\)\s*\.unwrap_or\(Setsum::default\(\)\.hexdigest\(\)\)` => `mani.info_or_default('\1')`
 //@ rewrite-re? X17 `\b(\w+_setsum) != (\w+_setsum)\b` => `!\1.eq(&\2)`
 //@ rewrite-re? X17 `\b(\w+_setsum) == (\w+_setsum)\b` => `\1.eq(&\2)`
 //@ rewrite-re X7 `(?s)return Err\(\s*corruption\("setsum of tree does not match setsum of manifest"\).*?\);` => `return Err(open_mismatch_error(version_setsum, mani_setsum));`
 //@ post <<
-        r is Ok ==> tree_sum(*version) == mani.o(),
+        // the store opens only on a tree whose setsum is the manifest's recorded output, and that tree holds the records of
+        // exactly the files the manifest lists
+        r is Ok ==> tree_sum(r->Ok_0) == mani.o()
+            && exists|md: Seq<SstMetadata>| listed_records(*root, *mani, md) && #[trigger] gsum(mds_g(md)) == mani.o(),
 //@ >>
 //@ end
 
